@@ -66,6 +66,8 @@ type sop struct {
 	canaried    bool
 	cancelAt    time.Duration
 	cancelled   bool
+	// the context ended while the request's own write was still blocked
+	cancelWhileWriting bool
 }
 
 func (o *sop) blocking() bool { return o.form != rig.FormGo && o.form != rig.FormRoundTrip }
@@ -431,9 +433,15 @@ func runScript(script []sev, v schedVariant, race bool) schedResult {
 				return false
 			}
 			if !isReleased(e.i) {
-				// not written yet: only a request still queued behind an
-				// earlier, gated write (pipelining) may be cancelled here
-				if !v.pipeline || writeOf(e.i) >= 0 {
+				// Not written yet. A request still queued behind an earlier,
+				// gated write (pipelining) is abandoned like any other. A
+				// request whose own write is blocked cannot be abandoned
+				// promptly (outside the statement), so promptness is not
+				// judged for it - but what the call finally returns is: the
+				// context's error, or nil with the right reply.
+				if writeOf(e.i) >= 0 {
+					ops[e.i].cancelWhileWriting = true
+				} else if !v.pipeline {
 					return false
 				}
 			}
@@ -486,7 +494,7 @@ func runScript(script []sev, v schedVariant, race bool) schedResult {
 		// C19: a cancelled context call must have returned by now
 		if e.kind == "cancel" {
 			o := ops[e.i]
-			if atomic.LoadInt32(&o.returned) == 0 {
+			if atomic.LoadInt32(&o.returned) == 0 && !o.cancelWhileWriting {
 				bad("C19", "C19/sched/cancel-not-prompt", fmt.Sprintf("CallWithContext has not returned although its context was cancelled and the system is quiescent (script %s, %s)", scriptString(script), v))
 			}
 		}
@@ -531,6 +539,9 @@ func runScript(script []sev, v schedVariant, race bool) schedResult {
 			}
 			if o.retErr == nil && o.form != "Ping" && !bytes.Equal(o.reply, svc.Reply(o.args)) {
 				bad("C01", "C01/sched/wrong-reply", fmt.Sprintf("%s (op %d) returned nil with a reply that is not f(args) (%s)", o.form, o.idx+1, desc))
+				if o.cancelled {
+					bad("C19", "C19/sched/nil-error-without-reply", fmt.Sprintf("%s (op %d), whose context ended around the arrival of its response, returned a nil error with a reply object that does not hold the reply (%d bytes, sentinel untouched=%v): it must return the context's error or the reply (%s)", o.form, o.idx+1, len(o.reply), bytes.Equal(o.reply, rig.Sentinel), desc))
+				}
 			}
 			// C19: what a context call must return
 			if o.cancelled && o.cancel != nil && o.retErr != nil && o.retErr != context.Canceled {
